@@ -82,8 +82,10 @@ SettersOf(i) ==
       [] Class(i) = "optstr" -> {<<i, "set", s>> : s \in (IF Rows[i].kind = "abspath" THEN Range(U.abspaths) ELSE Strs)}
       [] Class(i) = "str" -> {<<i, "set", s>> : s \in Strs}
       [] Class(i) = "enum" -> {<<i, "set", v>> : v \in ValuesOf(i)}
-      [] Class(i) = "map" -> {<<i, "push", <<k, s>> >> : k \in Keys(i), s \in Strs}
-      [] Class(i) = "triples" -> {<<i, "push", <<t, f, a>> >> : t \in Range(U.tstrs), f \in Range(U.tstrs), a \in Range(U.attrs)}
+      [] Class(i) = "map" -> {<<i, "push", <<k, s>> >> : k \in Keys(i), s \in Strs \cup Range(Rows[i].extra)}
+      [] Class(i) = "triples" -> {<<i, "push", <<t, f, U.attrs[1]>> >> : t \in Range(U.tstrs), f \in Range(U.tstrs)}
+                                 \* fields that exist in the header x attributes with '=' and quotes inside
+                                 \cup {<<i, "push", <<p[1], p[2], a>> >> : p \in Range(U.tpairs), a \in Range(U.attrs)}
       [] Class(i) = "headers" -> {<<i, "push", h>> : h \in Range(U.headers)}
       [] Class(i) = "clang_args" -> {<<i, "push", a>> : a \in Range(U.clang)}
       [] Class(i) = "codegen" -> {<<i, "set", s>> : s \in Subsets(i)} \cup {<<i, "ignore", "functions">>, <<i, "ignore", "methods">>}
